@@ -28,12 +28,19 @@ package function
 //@   ensures[C10] arity: (=> (or (< (Slice.len args) (sp_nparams sp)) (and (not (sp_hasvar sp)) (not (= (Slice.len args) (sp_nparams sp))))) (and (not (= err nil.Any)) (not ((_ is box<function.ArgError>) err))))
 //@   ensures[C10] typed: (=> (= err nil.Any) (wf_ty ty))
 //@   ensures[C10] checked: (=> (and (= err nil.Any) (not dynTypedArgs)) (and (arity_ok sp (Slice.len args)) (args_checked sp args (Slice.len args))))
+//@   let hv $H<Arr<cty.Value>>
+//@   let rel (forall ((j Int)) (! (=> (and (trig j) (<= 0 j) (< j (Slice.len $p.args))) (or (= (hval_at hv args j) (val_at $p.args j)) (= (hval_at hv args j) (deep_unmark (val_at $p.args j))))) :pattern ((trig j))))
 //@   loop 1 invariant (= (Slice.len args) (Slice.len $p.args))
 //@   loop 1 invariant (args_checked sp $p.args $i)
+//@   loop 1 invariant[C10,@rel] rel
+//@   loop 1 invariant[C10,@unm+rel] (forall ((j Int)) (! (=> (and (trig j) (<= 0 j) (< j $i) (not (function.Parameter.AllowMarked (sp_param_for sp j)))) (not (deep_marked (hval_at hv args j)))) :pattern ((trig j))))
 //@   loop 2 invariant (= (Slice.len args) (Slice.len $p.args))
 //@   loop 2 invariant (args_checked sp $p.args (+ (sp_nparams sp) $i))
+//@   loop 2 invariant[C10,@rel] rel
+//@   loop 2 invariant[C10,@unm+rel] (forall ((j Int)) (! (=> (and (trig j) (<= 0 j) (< j (+ (sp_nparams sp) $i)) (not (function.Parameter.AllowMarked (sp_param_for sp j)))) (not (deep_marked (hval_at hv args j)))) :pattern ((trig j))))
 //@   calls f.spec.Type
 //@     may_panic
+//@     requires[C10] contract: (and (arity_ok sp (Slice.len args)) (forall ((j Int)) (! (=> (and (trig j) (<= 0 j) (< j (Slice.len args))) (type_arg_ok (sp_param_for sp j) (hval_at $H<Arr<cty.Value>> args j))) :pattern ((trig j)))))
 //@     ensures (from_callback result.1)
 //@     ensures (=> (= result.1 nil.Any) (wf_ty result.0))
 //
